@@ -97,7 +97,8 @@ def _multiset(items):
 
 
 FM_LITERAL_TAGS = {b"SInt", b"BInt", b"HInt", b"SFlo", b"DFlo", b"Char", b"Byte", b"Arr", b"Nil", b"Bool"}
-FM_SLOT_TAGS = {b"Lex": 2, b"EElt": 2}      # position of the slot number among the children
+# position of the slot number among the children: (Lex level slot [name]), (EElt format ref level slot [name])
+FM_SLOT_TAGS = {b"Lex": 2, b"EElt": 4}
 
 
 def fm_canon(x):
